@@ -14,6 +14,7 @@ ASSUME = [
     "energy spread of the stationary state within 0.8*delta^2 + 1e-3 of 1",
     "the bunch current is chosen by a pilot run so that the wake term over the core lies between 0.05 and about 1",
     "API complement: a WakePotentialMap driven through sequences of profiles that change by 1e-9 ... 1e-2 per step must, after every update(), act bit-for-bit like a freshly built kick map given the wake potential of the current profile",
+    "API complement 2: after every such update the energy centroid of each bunch moves by minus the profile-weighted mean of the recorded wake potential (4e-7*n + 1e-3 relative; interpolation orders 2-4; largest kick per case log-uniform 1e-5 ... 2 cells, so kicks far below a cell are covered; bunches with charge near the energy border skipped)",
     "kick-drift splitting error O(a) limits sensitivity to scale errors of a few per cent (steps per period >= 400)",
 ]
 
@@ -154,4 +155,4 @@ def run(ctx):
         for key, what, det in res["viol"]:
             ctx.violation(key, what, det)
         ctx.sample(dict(kind=res["kind"], options=res["opts"], current=res["current"], **res["A"]))
-    ctx.min_events = {"updates_checked": 5000, "equilibria_judged": max(4, n // 2), "equilibria.resistor": 1, "equilibria.wall": 1, "equilibria.csr": 1}
+    ctx.min_events = {"updates_checked": 5000, "kick_centroids_checked": 3000, "kick_centroids_checked_below_1e-3_cell": 300, "equilibria_judged": max(4, n // 2), "equilibria.resistor": 1, "equilibria.wall": 1, "equilibria.csr": 1}
